@@ -190,6 +190,7 @@ PROPS["C19"] = {
     "level": "exploration",
     "units": [
         {"name": "c19-rpc-robustness", "pkg": ROOT, "run": "TestVerifC19", "timeout": {"quick": 900, "thorough": 3400}},
+        {"name": "c19-fresh-account-sequences", "pkg": ROOT, "run": "TestVerifC19Fresh", "timeout": {"quick": 900, "thorough": 2400}},
         {"name": "c19-helpers", "pkg": ROOT, "run": "TestVerifC19Helpers", "timeout": {"quick": 600, "thorough": 1800}},
         {"name": "c19-rpc-sweep", "pkg": ROOT, "run": "TestVerifC19Sweep", "timeout": {"quick": 1500, "thorough": 3400}},
     ],
